@@ -1,5 +1,6 @@
 """C03 Decoders are total (Zinc reader; engine M)."""
 import collections, json, re
+import z3
 from mirsym import load
 from vlib import sym
 from vlib.ctx import Inconclusive
@@ -54,6 +55,73 @@ def fn_of(where):
     return nm.split('::')[-1]
 
 
+HAYSON_KINDS = {'number': ['val', 'unit'], 'ref': ['val', 'dis'], 'symbol': ['val'], 'uri': ['val'], 'date': ['val'], 'time': ['val'],
+                'dateTime': ['val', 'tz'], 'coord': ['lat', 'lng'], 'xstr': ['type', 'val'], 'grid': ['meta', 'cols', 'rows'], 'dict': ['a'],
+                'marker': [], 'na': [], 'remove': [], 'bogus': ['val']}
+
+
+def hayson_templates(ctx):
+    return [{'name': 'hayson-' + k, 'hayson': k} for k in HAYSON_KINDS] + [{'name': 'hayson-kind-type', 'hayson': None}]
+
+
+def hayson_member(ex, l):
+    from mirsym.models_serde import J
+    k = ex.pick(8)
+    if k == 0: return None
+    if k == 1: return J('str', [])
+    if k == 2: return J('str', l.text(1))
+    if k == 3:
+        x = l.f64(); ex.assume(z3.And(z3.Not(z3.fpIsNaN(x)), z3.Not(z3.fpIsInf(x))))      # JSON numbers are finite
+        return J('f64', x)
+    if k == 4: return J('null')
+    if k == 5: return J('bool', True)
+    if k == 6: return J('seq', [J('map', []), J('str', [l.byte([(0x20, 0x7e)])])] if ex.pick(2) else [])
+    return J('map', [(list(b'name'), J('str', [l.byte([(0x61, 0x7a)])]))] if ex.pick(2) else [])
+
+
+def hayson_path(ex, t):
+    from mirsym.models_serde import J
+    from props.zenc_common import Leaves
+    from props import hayson_common as hc
+    from mirsym.hv import HV
+    l = Leaves(ex)
+    if t['hayson'] is None:
+        kindv = hayson_member(ex, l) or J('null'); members = [(list(b'val'), J('str', [l.byte([(0x20, 0x7e)])]))]
+    else:
+        kindv = J('str', list(t['hayson'].encode())); members = []
+        for m in HAYSON_KINDS[t['hayson']]:
+            v = hayson_member(ex, l)
+            if v is not None: members.append((list(m.encode()), v))
+    ent = [(list(b'_kind'), kindv)] + members
+    if ex.pick(2): ent = list(reversed(ent))
+    tree = J('map', ent)
+    ex.side['tree'] = tree
+    return hc.decode(ex, tree, HV(ex).ty('Value'))
+
+
+def hayson_post(ex, t, r):
+    from props import hayson_common as hc
+    from mirsym.vj import Concretizer
+    if r.kind == 'unsupported': return {'kind': 'unsupported', 'detail': r.detail, 'where': r.where}
+    try: m = ex.model()
+    except Infeasible: return None
+    cz = Concretizer(ex, m)
+    tj = hc.tj(cz, ex.side['tree'])
+    s = {'kind': r.kind, 'detail': r.detail, 'where': r.where, 'input': json.dumps(tj), 'native_case': {'api': 'json_decode', 'tree': tj}}
+    if r.kind == 'ok':
+        s['expect'] = 'ok' if r.value.variant == 0 else 'err'
+        if r.value.variant == 0:
+            try: s['value'] = cz.value(r.value.fields[0])
+            except Unsupported as u: s['value_unsupported'] = str(u)
+    else: s['expect'] = 'panic' if r.kind == 'panic' else 'hang'
+    if ex.side.get('named_zone'): s['zone_axiom'] = True
+    return s
+
+
+class _Hayson:
+    path = staticmethod(hayson_path); post = staticmethod(hayson_post)
+
+
 def run(ctx):
     prog = load.program(ctx.repo, ctx.cache)
     T = templates(ctx)
@@ -61,6 +129,10 @@ def run(ctx):
                          'mir_steps_per_path': 40000, 'call_depth': 60}
     S = sym.explore_templates(ctx, __import__('props.C03', fromlist=['x']), T, prog, split_depth=5,
                               budget_s=240 if ctx.quick() else 1800)
+    H = sym.explore_templates(ctx, _Hayson, hayson_templates(ctx), prog, split_depth=4, budget_s=120 if ctx.quick() else 600)
+    for h_ in H:
+        if h_.get('input') is not None and h_['kind'] != 'unsupported': h_['hayson'] = True
+    S = S + H
     sym.native_check(ctx, S)
     byk = collections.Counter(s['kind'] for s in S)
     ctx.cov['path_kinds'] = dict(byk)
@@ -78,8 +150,8 @@ def run(ctx):
         validated += 1
         if s['expect'] in ('panic', 'hang'):
             kind = 'panic' if s['expect'] == 'panic' else 'nonterm'
-            key = 'zinc.decode.%s:%s' % (kind, fn_of(s.get('where')))
-            what = '%s in %s on input %r (native: %s)' % (s['detail'], s.get('where'), bytes.fromhex(s['input']), str(s['native'])[:120])
+            key = '%s.decode.%s:%s' % ('hayson' if s.get('hayson') else 'zinc', kind, fn_of(s.get('where')))
+            what = '%s in %s on input %r (native: %s)' % (s['detail'], s.get('where'), s['input'] if s.get('hayson') else bytes.fromhex(s['input']), str(s['native'])[:120])
             ctx.report(key, what, case=s['native_case'])
     ctx.cov['traces_validated_against_impl'] += validated
     for s in S[:6]:
